@@ -20,8 +20,9 @@ DESIGN_REF = "DESIGN.md section 6 C06"
 
 CLASSES = ["array", "linked_list", "dlinked_list"]
 NA = {"seq": ["OpSet", "OpMapGet", "OpMapRemove", "OpDelPair", "OpListing", "OpDelListing"],
-      "vec": ["OpSet", "OpMapGet", "OpMapRemove", "OpDelPair", "OpListing", "OpDelListing"],
-      "map": ["OpGive", "OpTakeBack", "OpTakeFirst", "OpLend", "OpToArray", "OpFreeArray"]}
+      "vec": ["OpSet", "OpMapGet", "OpMapRemove", "OpDelPair", "OpListing", "OpDelListing", "OpGiveRefused"],
+      "map": ["OpGive", "OpGiveRefused", "OpTakeBack", "OpTakeFirst", "OpLend", "OpToArray", "OpFreeArray"]}
+VALS = {2: "1,1", 3: "1,1,2"}      # two handles carry EQUAL values: identity vs equality
 
 
 def init(n):
@@ -49,12 +50,12 @@ def harness(ctx):
 
 def run(ctx):
     exe = harness(ctx)
-    n = 2 if ctx.tier == "quick" else 3
     walks = (200, 40) if ctx.tier == "quick" else (3000, 80)
     for kind in ("seq", "vec", "map"):
+        n = 3 if (ctx.tier != "quick" or kind != "map") else 2
         g, res = objcheck.tlc_graph(ctx, "MC_Ownership.tla", "Ownership_%s_%d.cfg" % (kind, n), ignore_untaken=NA[kind], workers=4)
         for cls in CLASSES:
-            objcheck.replay_cover(ctx, g, [tok(init(n))], exe, "%s/%s" % (kind, cls), [kind, cls, str(n)], keyfn, walks=walks,
+            objcheck.replay_cover(ctx, g, [tok(init(n))], exe, "%s/%s" % (kind, cls), [kind, cls, VALS[n]], keyfn, walks=walks,
                                   pairs=(20000 if ctx.tier == "quick" else 400000))
     # the small value classes (pairs, tokenizers, URLs, regexps): SmallObj.tla lifecycles with per-script heap balance
     from checks import c05
